@@ -250,20 +250,39 @@ Proof.
 Qed.
 
 Lemma dropExt_addExt f :
-  normal f -> In DOT (fn_base f) -> fn_name f <> [] ->
+  normal f -> In DOT (fn_base f) -> fn_name f <> [] \/ fn_path f = [] ->
   fn_addExt (fn_dropExt f) (DOT :: fn_ext f) = f.
 Proof.
   intros Hn Hd Hne. destruct (filename_cases f) as (Hf & Hs & _ & [(Hd' & _) | (_ & Hb & _ & Hdrop & _)]); cbv zeta in *.
   - contradiction.
-  - assert (N1 : normal (fn_path f ++ fn_name f)).
+  - assert (Hsn : ~ In SEP (fn_name f)) by (intro I; apply Hs; rewrite Hb; apply in_or_app; now left).
+    assert (N1 : normal (fn_path f ++ fn_name f)).
     { destruct Hn as [Hbsl Htr]. split.
       - intro I. apply Hbsl. rewrite Hf, Hb, app_assoc. apply in_or_app. now left.
-      - intros g E. assert (In SEP (fn_name f)) as I.
-        { destruct (fn_name f) as [|x nm] using rev_ind; [contradiction|].
-          rewrite app_assoc in E. apply app_inj_tail in E as [_ ->]. apply in_or_app. right. now left. }
-        apply Hs. rewrite Hb. apply in_or_app. now left. }
+      - intros g E. apply Hsn. destruct Hne as [Hne | Hp].
+        + destruct (fn_name f) as [|x nm] using rev_ind; [contradiction|].
+          rewrite app_assoc in E. apply app_inj_tail in E as [_ ->]. apply in_or_app. right. now left.
+        + rewrite Hp in E. simpl in E. rewrite E. apply in_or_app. right. now left. }
     rewrite Hdrop, (fn_norm_id _ N1). unfold fn_addExt.
     rewrite <- app_assoc, <- Hb, <- Hf. now apply fn_norm_id.
+Qed.
+
+(* OPEN FINDING (known_findings.json: C18-dropExt-hidden-file-under-directory-drops-separator):
+   without the side condition the law is false.  For a hidden file directly under a directory
+   (empty name(), non-empty path()) dropExt() is FileName(path() ++ name()) = FileName("a/"), whose
+   constructor strips the trailing separator: "a/.x" -> "a", and addExt(".x") gives "a.x", a file
+   in the parent directory.  setExt is not affected; setExt(e) <> dropExt().addExt(e) there. *)
+Lemma dropExt_addExt_hidden_refuted :
+  exists f, normal f /\ In DOT (fn_base f) /\ fn_name f = [] /\ fn_path f <> [] /\
+            fn_dropExt f <> fn_path f ++ fn_name f /\
+            fn_addExt (fn_dropExt f) (DOT :: fn_ext f) <> f /\
+            fn_setExt f (DOT :: fn_ext f) = f /\
+            fn_setExt f [46; 121] <> fn_addExt (fn_dropExt f) [46; 121].
+Proof.
+  exists [97; 47; 46; 120].
+  split; [exact (fn_norm_normal [97; 47; 46; 120])|].
+  split; [vm_compute; now left|].
+  vm_compute. repeat split; try discriminate; reflexivity.
 Qed.
 
 Lemma dropExt_no_ext f : normal f -> ~ In DOT (fn_base f) -> fn_dropExt f = f /\ fn_setExt f [] = f /\ fn_addExt f [] = f.
